@@ -198,6 +198,16 @@ func (s *scanner) file(
 				}, nil
 			}
 			defer file.Close()
+
+			// The metadata returned by the open operation supersedes the
+			// metadata that was obtained when listing the parent directory. If
+			// the file was replaced in the interim, then the two can differ,
+			// so recompute executability to keep it consistent with the
+			// content that we're about to hash (and with the cache entry that
+			// we record, which Transition uses to detect modifications).
+			if s.permissionsMode == PermissionsMode_PermissionsModePortable {
+				executable = s.preservesExecutability && anyExecutableBitSet(metadata.Mode)
+			}
 		}
 
 		// Reset the hash state.
